@@ -164,6 +164,13 @@ def run_unit(name, tier, seed):
     if rlimit:
         raise Undecided('unit %s: solver resource limit: %s' % (name, rlimit[0][:200]))
     failed_funcs = [f for f in funcs if not f['success']]
+    if g.get('guessed') and fails:
+        gf = {x.split('/')[-1] for x in g['guessed']}
+        hit = [f for f in fails if f['function'].split('::')[-1] in gf]
+        if hit:
+            raise Undecided('unit %s: the code around an annotation of %s changed shape (new statements at the anchor); '
+                            'the annotation was placed by a guess and the function no longer verifies - cannot tell a '
+                            'broken proof from a broken property' % (name, hit[0]['function']))
     if vr.get('errors', 0) > 0 and not fails:
         raise Undecided('unit %s: verus reports %d errors but none could be located' % (name, vr.get('errors')))
     out = dict(name=name, gen=g, gm=gm, verus=r, vr=vr, fails=fails, funcs=funcs, failed_funcs=failed_funcs,
